@@ -20,7 +20,7 @@ VALS = LONG + ["\"quoted text\"", "\"\"", "\"", "'single'", "\"a\" and \"b\"", "
 
 def spell(rng, s):
     if s is None:
-        return rng.pick([None, ""])
+        return rng.pick([None, "", None, "", "[]"])      # brackets around the empty name: still the empty name
     return rng.pick([s, s, "[%s]" % s])
 
 
